@@ -265,21 +265,12 @@ DoubleSupport::modulus(
     {
         return theRHS;
     }
-    else if (theRHS == 0.0)
-    {
-        return getNaN();
-    }
-    else if (long(theLHS) == theLHS && long(theRHS) == theRHS)
-    {
-        return long(theLHS) % long(theRHS);
-    }
     else
     {
-        double  theDummy;
-
-        double  theResult = divide(theLHS, theRHS);
-
-        return std::modf(theResult, &theDummy) * theRHS;
+        // The remainder from a truncating division, with the sign
+        // of the dividend, computed exactly.  NaN if the divisor is
+        // zero or the dividend is infinite.
+        return std::fmod(theLHS, theRHS);
     }
 }
 
